@@ -126,7 +126,15 @@ func classify(srv *ogServer, ps *plannedSet, q *query, kind string, got, want *r
 		q2.e = e2
 		q2.text = e2.text()
 		pred := ps.up.query(&q2)
-		k, _ := diffResults(got, &pred)
+		if pred.err != "" && got.err == "" {
+			// under the defect model the reference rejects the query (e.g. the extra series the
+			// ignored matcher lets through duplicate a label set) and openGemini answers
+			return true
+		}
+		k, d := diffResults(got, &pred)
+		if k != "" && os.Getenv("C18_VERBOSE") != "" {
+			fmt.Fprintf(os.Stderr, "   model %q does not explain: %s\n", q2.text, d)
+		}
 		return k == ""
 	}
 	for _, rw := range applicable {
